@@ -30,15 +30,26 @@ struct Case
 {
     RtConfig cfg;
     std::vector<Scenario> sc;
+    int avoided = 0;
 };
 
 static Case decode(tape_t const& tape)
 {
     Tape t(tape);
     Case c;
-    c.cfg = decode_config(t, {S_THREAD_JOIN, S_EXIT_CALLBACKS, S_SL_AFTER_RUN, S_SL_AFTER_STORE, S_DO_YIELD, S_STS_BEFORE_CAS,
+    c.cfg = decode_config(t, {S_THREAD_JOIN, S_EXIT_CALLBACKS, S_EXIT_CALLBACK_CALL, S_EXIT_CALLBACK_CALL, S_SL_AFTER_RUN, S_SL_AFTER_STORE, S_DO_YIELD, S_STS_BEFORE_CAS,
                                  S_STS_BEFORE_SCHEDULE, S_SET_ACTIVE_STATE});
     c.cfg.workers = t.weighted({3, 4, 2, 2, 1, 1, 1, 1}) + 1;
+    {
+        // known finding F10 excluded by construction (counted): pika::thread on the shared-priority scheduler
+        char const* e = std::getenv("VERIF_AVOID");
+        if (e && std::strstr(e, "shared_priority_thread") && c.cfg.policy == 7) { c.cfg.policy = 0; c.avoided = 1; }
+    }
+    bool avoid_abort = false;
+    {
+        char const* e = std::getenv("VERIF_AVOID");
+        avoid_abort = e && std::strstr(e, "abort_wake_disabled");
+    }
     int n = t.weighted({3, 3, 2, 2, 1, 1, 1, 1}) + 1;
     for (int i = 0; i < n; ++i)
     {
@@ -51,6 +62,7 @@ static Case decode(tape_t const& tape)
             int op = t.weighted({3, 4, 2, 2, 1, 0, 1, 1});
             if (s.kind != SC_INTERRUPT && (op == B_IPOINT || op == B_DISABLE_BEGIN)) op = B_YIELD;
             if (s.kind == SC_JTHREAD && op == B_WAIT_EVENT) op = B_YIELD;
+            if (avoid_abort && in_disable && (op == B_WAIT_EVENT || op == B_SPAWN_JOIN)) { op = B_SPIN; ++c.avoided; }
             if (op == B_DISABLE_BEGIN)
             {
                 if (in_disable) { op = B_DISABLE_END; in_disable = false; }
@@ -62,7 +74,8 @@ static Case decode(tape_t const& tape)
         s.ctrl_delay = static_cast<int>(t.below(6));
         s.ctrl_hint = t.chance(1, 2) ? static_cast<int>(t.below(static_cast<std::uint32_t>(c.cfg.workers))) : -1;
         s.second_join = t.chance(1, 3);
-        s.exit_callback = t.chance(1, 2);
+        (void) t.chance(1, 2);
+        s.exit_callback = false;    // exit callbacks are an internal mechanism used only by join itself: not probed
         s.signal_delay = static_cast<int>(t.below(5));
         c.sc.push_back(std::move(s));
     }
@@ -95,7 +108,7 @@ static void delay(int code)
     case 2: { volatile int x = 0; for (int k = 0; k < 30000; ++k) x = x + 1; break; }
     case 3: pika::this_thread::yield(); break;
     case 4: for (int k = 0; k < 5; ++k) pika::this_thread::yield(); break;
-    case 5: pika::this_thread::sleep_for(std::chrono::microseconds(200)); break;
+    case 5: for (int k = 0; k < 20; ++k) pika::this_thread::yield(); break;    // (timed suspension of tasks is not supported by this pika)
     }
 }
 
@@ -160,10 +173,16 @@ static void run_body(ScenRt& r, pika::stop_token st = pika::stop_token())
                 case B_SPAWN_JOIN:
                 {
                     pika::thread child([&r] { pika::this_thread::yield(); r.child_done.fetch_add(1); });
-                    if (child.joinable()) child.join(); else r.not_joinable_fresh.fetch_add(1);
+                    if (child.joinable())
+                    {
+                        // join() is an interruption point: do not let a joinable handle be destroyed by the unwinding
+                        try { child.join(); }
+                        catch (pika::thread_interrupted const&) { if (child.joinable()) child.detach(); throw; }
+                    }
+                    else r.not_joinable_fresh.fetch_add(1);
                     break;
                 }
-                case B_SLEEP: pika::this_thread::sleep_for(std::chrono::microseconds(100)); break;
+                case B_SLEEP: pika::execution::this_thread::detail::yield_k(40, "verif"); break;    // yield with back-off (pending_boost / pending)
                 }
             }
             catch (pika::thread_interrupted const&)
@@ -171,6 +190,18 @@ static void run_body(ScenRt& r, pika::stop_token st = pika::stop_token())
                 r.interrupted_at.store(idx);
                 r.surfaced_kind.store(op);
                 r.surfaced_enabled.store(enabled ? 1 : 0);
+                throw;
+            }
+            catch (pika::exception const& e)
+            {
+                if (e.get_error() == pika::error::yield_aborted)
+                {
+                    // the interrupt's abort-wake hit a wait: with interruption disabled this must not end the thread
+                    if (!enabled)
+                        fail_now("wait_aborted_while_interruption_disabled", std::string("op '") + bop_names[op] +
+                                "' inside a disable_interruption scope was aborted (yield_aborted) by an interruption request: the request was delivered while interruption was disabled and ended the thread");
+                    fail_now("wait_aborted_instead_of_interrupted", std::string("op '") + bop_names[op] + "' threw yield_aborted with interruption enabled");
+                }
                 throw;
             }
             if (must_deliver) r.missed_delivery.store(idx + 1);
@@ -278,7 +309,12 @@ static void controller(ScenRt& r)
             if (r.missed_delivery.load() > 0)
                 fail_now("interrupt_not_delivered", "an accepted interruption request was not delivered at the enabled interruption point op #" + std::to_string(r.missed_delivery.load() - 1));
         }
-        else if (r.body_finished.load() != 1) fail_now("join_early", "join() returned before the thread function returned");
+        else
+        {
+            if (r.interrupted_at.load() >= 0)
+                fail_now("interrupt_without_request", std::string("a thread that nobody interrupted was ended by thread_interrupted at op '") + bop_names[r.surfaced_kind.load()] + "'");
+            if (r.body_finished.load() != 1) fail_now("join_early", "join() returned before the thread function returned");
+        }
         break;
     }
     case SC_JTHREAD:
@@ -343,6 +379,7 @@ static Outcome run(tape_t const& tape)
         auto& r = *rs[i];
         if (!r.done.load()) out = Outcome::fail("scenario_incomplete", "scenario " + std::to_string(i) + " did not complete although wait() returned");
         else if (r.body_entered.load() != 1) out = Outcome::fail("body_runs", "thread body entered " + std::to_string(r.body_entered.load()) + " times");
+        else if (r.spec.kind != SC_INTERRUPT && r.interrupted_at.load() >= 0) out = Outcome::fail("interrupt_without_request", "a thread that nobody interrupted was ended by thread_interrupted");
         else if (r.spec.kind == SC_DETACH && r.body_finished.load() != 1) out = Outcome::fail("detached_body_lost", "detached thread body did not finish before wait() returned");
     }
     q.enter_stop_mode([] { return true; });
@@ -351,6 +388,7 @@ static Outcome run(tape_t const& tape)
     add_monitor_counters(out);
     long long joins = g_joins.load(), acc = g_join_accepted.load();
     out.counters["joins"] = joins;
+    out.counters["avoided"] = c.avoided;
     out.counters["joins_suspended"] = acc;
     bool refused_path = joins > acc;
     bool interrupted = false;
